@@ -24,7 +24,14 @@ template<class T> static void unary(T x) { std::string ty = tn<T>();
 	count("bitCount_" + ty); if (glm::bitCount(x) != ref_count(x) || glm::bitCount(glm::vec<3, T>(x, (T)1, x)).z != ref_count(x)) fail("bitCount_" + ty, "value", ps(x), str(ref_count(x)), str(glm::bitCount(x)));
 	count("findLSB_" + ty); if (glm::findLSB(x) != ref_lsb(x) || glm::findLSB(glm::vec<2, T>((T)4, x)).y != ref_lsb(x)) fail("findLSB_" + ty, "value", ps(x), str(ref_lsb(x)), str(glm::findLSB(x)));
 	count("findMSB_" + ty); if (glm::findMSB(x) != ref_msb(x) || glm::findMSB(glm::vec<4, T>((T)4, x, (T)0, x)).w != ref_msb(x)) fail("findMSB_" + ty, (std::is_signed<T>::value && x < 0) ? "negative" : "value", ps(x), str(ref_msb(x)), str(glm::findMSB(x)));
-	count("bitfieldReverse_" + ty); if (glm::bitfieldReverse(x) != ref_rev(x) || glm::bitfieldReverse(glm::vec<3, T>(x, (T)1, x)).z != ref_rev(x)) fail("bitfieldReverse_" + ty, (std::is_signed<T>::value) ? "signed" : "value", ps(x), ps(ref_rev(x)), ps(glm::bitfieldReverse(x))); }
+	count("bitfieldReverse_" + ty); if (glm::bitfieldReverse(x) != ref_rev(x) || glm::bitfieldReverse(glm::vec<3, T>(x, (T)1, x)).z != ref_rev(x)) fail("bitfieldReverse_" + ty, (std::is_signed<T>::value) ? "signed" : "value", ps(x), ps(ref_rev(x)), ps(glm::bitfieldReverse(x)));
+	// 4-component overloads in every lane (the aligned / SIMD specialisations are for vec<4, ...>)
+	{ glm::vec<4, T> v4(x, (T)1, (T)(x ^ (T)0x5a), (T)~x); T xs[4] = { x, (T)1, (T)(x ^ (T)0x5a), (T)~x }; auto c4 = glm::bitCount(v4); auto l4 = glm::findLSB(v4); auto m4 = glm::findMSB(v4); auto r4 = glm::bitfieldReverse(v4);
+	  for (int k = 0; k < 4; ++k) { count("vec4_" + ty);
+		if (c4[k] != ref_count(xs[k])) fail("bitCount_vec4_" + ty, "lane", ps(xs[k]) + " lane " + str(k), str(ref_count(xs[k])), str(c4[k]));
+		if (l4[k] != ref_lsb(xs[k])) fail("findLSB_vec4_" + ty, "lane", ps(xs[k]) + " lane " + str(k), str(ref_lsb(xs[k])), str(l4[k]));
+		if (m4[k] != ref_msb(xs[k])) fail("findMSB_vec4_" + ty, (std::is_signed<T>::value && xs[k] < 0) ? "negative" : "lane", ps(xs[k]) + " lane " + str(k), str(ref_msb(xs[k])), str(m4[k]));
+		if (r4[k] != ref_rev(xs[k])) fail("bitfieldReverse_vec4_" + ty, "lane", ps(xs[k]) + " lane " + str(k), ps(ref_rev(xs[k])), ps(r4[k])); } } }
 template<class T> static void fields(Rng& g, int n) { std::string ty = tn<T>(); int w = sizeof(T) * 8;
 	for (int i = 0; i < n; ++i) { T x = special<T>(g, i), y = special<T>(g, i + 5); int off = (int)(g.next() % w); int bits = (int)(g.next() % (w - off + 1)); if (i % 7 == 0) bits = 0; if (i % 11 == 0) { off = 0; bits = w; }
 		T e = ref_extract(x, off, bits); T r = glm::bitfieldExtract(x, off, bits); T rv = glm::bitfieldExtract(glm::vec<2, T>(y, x), off, bits).y; count("bitfieldExtract");
